@@ -147,6 +147,39 @@ def run(res):
             found += 1
             res.violation("time grows faster than a small polynomial on family %s: exponent %.2f (%s)" % (name, worst, pts),
                           {"family": name, "points": pts})
+    # 3b. depth-scaled expression families (nesting up to the property's bound of 64): the emitted code stays within a constant
+    # factor of the input in every recursive position of the expression grammar
+    dfam = {}
+    for l in so.split("\n"):
+        if l.startswith("DEPTH "):
+            f = dict(x.split("=") for x in l.split()[2:])
+            dfam.setdefault(l.split()[1], []).append((int(f["k"]), int(f["bytes"]), int(f["out"]), float(f["ms"]), f["ok"] == "true"))
+    worst_ratio = 0.0
+    for name, pts in sorted(dfam.items()):
+        pts.sort()
+        bad = None
+        for (k1, b1, o1, t1, _), (k2, b2, o2, t2, ok2) in zip(pts, pts[1:]):
+            if not ok2:
+                bad = "panics at nesting %d" % k2
+                break
+            ratio = (o2 - o1) / max(1, b2 - b1)
+            worst_ratio = max(worst_ratio, ratio)
+            if o2 - o1 > 400 * (b2 - b1) + 2000:
+                bad = "output grows by %d bytes for %d more input bytes between nesting %d and %d (factor %.0f per byte)" % (
+                    o2 - o1, b2 - b1, k1, k2, ratio)
+                break
+            if t2 > 2000:
+                bad = "takes %.0f ms at nesting %d" % (t2, k2)
+                break
+        if bad is None and pts and pts[-1][0] < 62 and st == "ok":
+            bad = "stopped at nesting %d (output %d bytes for %d input bytes)" % (pts[-1][0], pts[-1][2], pts[-1][1])
+        if bad:
+            found += 1
+            if found <= 6:
+                res.violation("expression family %s: code generation is not bounded by a small polynomial of the input: %s" % (name, bad),
+                              {"family": name, "points (nesting, input bytes, output bytes, ms, ok)": pts})
+    res.notes["depth_families"] = len(dfam)
+    res.notes["depth_worst_marginal_output_bytes_per_input_byte"] = round(worst_ratio, 1)
     # 4. known finding (reported, not failed): thousands of bindings in one value overflow the stack
     kf = [k for k in known_findings()["findings"] if k.get("property") == "C01"]
     for k in kf:
@@ -163,6 +196,7 @@ def run(res):
     res.cov["rule"] = ("number literals (fixed list, every letter after 0x, random digit/letter strings x 8 terminators); isolated runs of "
                        "all template APIs (dev mode, all emitters, stringify plain+mangled, source map, dependencies) and all stylesheet "
                        "option sets on generated templates, 3 mutations each, White_Space x tag positions, nesting 8/32/64, malformed CSS; "
-                       "9 size-scaled families up to ~1 MB (thorough: 200k nodes); distinct_nontrivial = literal cases")
+                       "9 size-scaled families up to ~1 MB (thorough: 200k nodes); 19 depth-scaled expression families x 4 binding contexts up to "
+                       "nesting 62 (output bytes per input byte bounded); distinct_nontrivial = literal cases")
     res.cov["samples"] = [{"literal": dec(c.split("\t")[1]), "impl": i} for (c, i) in r["samples"][:5]]
     res.notes.update({"growth_exponents": exps, "numlit_cases": r["n"]})
